@@ -8,7 +8,7 @@ from .common import Driver, Timer, Verdict, lean_gate, write_evidence, seed, TRU
 from . import check_coord as CC
 
 MODULES = {
-    "C01": ["NSG.Properties.C01", "NSG.Properties.C01Barrier", "NSG.Properties.GenC01", "NSG.Properties.GenAtomic"],
+    "C01": ["NSG.Properties.C01", "NSG.Properties.C01Barrier", "NSG.Properties.C01Sched", "NSG.Properties.GenC01", "NSG.Properties.GenAtomic"],
     "C04": ["NSG.Properties.C04", "NSG.Properties.C04History"],
     "C05": ["NSG.Properties.C05"],
     "C06": ["NSG.Properties.C06", "NSG.Properties.C01Barrier", "NSG.Properties.C06Start", "NSG.Properties.GenAtomic"],
@@ -102,7 +102,7 @@ def main(prop, tier):
         from concurrent.futures import ProcessPoolExecutor
         workers = 12
         base = 1000003 * seed() + int(prop[1:]) * 7 + 1
-        jobs = [(prop, info["tables"]["defender"], base * 131 + w, 500, 60, PROFILES[prop], prop) for w in range(workers)]
+        jobs = [(prop, info["tables"]["defender"], base * 131 + w, 1500, 60, PROFILES[prop], prop) for w in range(workers)]
         with ProcessPoolExecutor(max_workers=workers) as ex:
             for fails, st in ex.map(_worker, jobs):
                 _merge(stats, st)
